@@ -918,3 +918,85 @@ def explain_batch_diff(batch_rows, alone_rows, alone_strains, diffs, rtol=0.0):
                     return set()
             kinds.add('lf')
     return kinds
+
+
+# =========================================================================== C04 round 2 (additive): dwells and long runs
+# Seeded change C04-3 truncates AbstractDetector._sample_tail to the last 8 samples: a trailing plateau (dwell) of >= 8 equal
+# samples that is a reversal of the repeated sequence is then forgotten at the start of pass 2.  The generators above use plateaus
+# of length <= 4.  The functions below add the input dimension "number of consecutive samples without a turning point":
+# long plateaus and long (non-strictly) monotone runs at the end, at the start and in the interior of the block.
+DWELL_LENGTHS = [3, 4, 5, 6, 7, 8, 8, 9, 10, 12, 16, 24, 33, 50, 64, 100, 130]      # total length of the plateau / run
+
+
+def strip_trailing_run(b):
+    """b without the repetitions of its last value (keeps one occurrence)."""
+    b = list(b)
+    while len(b) > 1 and b[-2] == b[-1]:
+        b.pop()
+    return b
+
+
+def dwell_pair(b, L):
+    """(reference, dwell): the block b ending in a plateau of exactly 2 resp. L >= 3 samples of its last value.  Both have the
+    same samples up to repetition of the last one; in both the last sample is NOT the first sample of its plateau, so
+    process_hcm_first defers the plateau in both (theorem dwell_insensitive: the model records the same for both)."""
+    b = strip_trailing_run(b)
+    return b + [b[-1]], b + [b[-1]] * (L - 1)
+
+
+def dwell_is_periodic_reversal(s):
+    """The trailing plateau of s is a reversal of the endlessly repeated sequence (direction into it != direction out of it)."""
+    b = strip_trailing_run(s)
+    v = b[-1]
+    before = [x for x in reversed(b[:-1]) if x != v][:1]
+    after = [x for x in b if x != v][:1]
+    return bool(before and after and (v - before[0]) * (after[0] - v) < 0)
+
+
+def monotone_run(rng, a, c, m):
+    """m samples moving (non-strictly) monotonically from a to c, both excluded as far as the values allow (repeats allowed)."""
+    lo, hi = sorted((a, c))
+    vals = sorted(rng.randint(lo, hi) for _ in range(m))
+    return vals if a <= c else vals[::-1]
+
+
+def dwell_variants(rng, b):
+    """[(kind, sequence)]: b with a long stretch of samples that contains no turning point, at various places."""
+    b = list(b)
+    out = []
+    L = rng.choice(DWELL_LENGTHS)
+    out.append(('leading-plateau', [b[0]] * (L - 1) + b))
+    i = rng.randrange(len(b))
+    out.append(('interior-plateau', b[:i + 1] + [b[i]] * (L - 1) + b[i + 1:]))
+    if len(b) >= 2:
+        i = rng.randrange(len(b) - 1)
+        out.append(('interior-monotone-run', b[:i + 1] + monotone_run(rng, b[i], b[i + 1], L) + b[i + 1:]))
+    # the block ends with a long monotone run (the last sample is approached over many samples), optionally followed by a dwell
+    t = b[-1] + rng.choice([-1, 1]) * rng.randint(1, 6)
+    run = monotone_run(rng, b[-1], t, L) + [t]
+    out.append(('trailing-monotone-run', b + run))
+    out.append(('trailing-run-then-plateau', b + run + [t] * (rng.choice(DWELL_LENGTHS) - 1)))
+    # dwell that is reached through an intermediate point (the sample before the plateau is no reversal)
+    if len(b) >= 2 and abs(b[-1] - b[-2]) >= 2:
+        lo, hi = sorted((b[-2], b[-1]))
+        out.append(('intermediate-then-plateau', b[:-1] + [rng.randint(lo + 1, hi - 1)] + [b[-1]] * L))
+    return [(k, s) for k, s in out if len(set(s)) >= 2]
+
+
+def pass2_rows(rows):
+    return sorted((r[0], r[1], r[2]) for r in load_rows(rows) if r[3] == 2)
+
+
+def dwell_relation(rows_ref, rows_dwell):
+    """'Repeated values at the end of the sequence do not change what is counted': None or a description."""
+    if pass2_rows(rows_ref) != pass2_rows(rows_dwell):
+        return 'the length of the trailing plateau changes the second-pass hystereses'
+    a = [(r[0], r[1], r[3]) for r in load_rows(rows_ref) if not r[2]]
+    b = [(r[0], r[1], r[3]) for r in load_rows(rows_dwell) if not r[2]]
+    if a != b:
+        return 'the length of the trailing plateau changes the half-counted (Memory 3) hystereses'
+    return None
+
+
+def _w_multi3(s):
+    return _safe(impl_run_multi, (s, [1, 3, 2]))
